@@ -377,6 +377,36 @@ func c08d(c *Ctx) {
 	if fn == nil {
 		return
 	}
+	// an entry is only read while the table is still open: the turn that gathers an entry begins
+	// under "the current token is not ']'" (tested before the first entry too — an empty table
+	// `[ ]` has no entries and does not swallow what follows it)
+	{
+		n := 0
+		instrs(fn, func(in ssa.Instruction) {
+			a, ok := in.(*ssa.Alloc)
+			if !ok || a.Comment != "complit" || !typeIs(a.Type(), "ast", "TableMapScriptEntry") {
+				return
+			}
+			h := loopHeaders(fn)[a.Block()]
+			if h == nil {
+				return
+			}
+			n++
+			okOpen := false
+			for _, sc := range h.Succs {
+				if !loopBody(h)[sc] {
+					continue
+				}
+				for _, l := range c.mustLits(fn, sc) {
+					if l2 := verRe.ReplaceAllString(l, ""); l2 == `-($0.curToken.Type == "]")` {
+						okOpen = true
+					}
+				}
+			}
+			c.Check(okOpen, fmt.Sprintf("table-entry-loop/entered-only-while-open#%d", n), c.W.Pos(h.Instrs[0].Pos()), "a table entry is read only while the current token is not ']'", "the loop over the table entries reads an entry without having tested for the closing ']' first: an empty table swallows the tokens that follow it into a bogus entry")
+		})
+		c.Check(n >= 1, "table-entry-loop/found", c.W.FuncPos(fn), "the table entry loop was found", "no table entry built inside a loop found")
+	}
 	for _, f := range []string{"MapScripts", "TableMapScripts"} {
 		n := 0
 		ok := true
